@@ -461,7 +461,27 @@ fn run_scenario(sc: &dyn Scenario, tier: Tier, seed: u64, nworkers: u64) -> Scen
                         stats.skip("cases_after_crash_in_worker_share");
                     },
                     None => {
-                        harness_error = Some(format!("worker {w} died (status {:?}) but the careful re-run did not: nondeterminism or resource problem. stderr: {}", status, se.chars().take(500).collect::<String>()));
+                        // The careful re-run survived.  If the plain worker dies again, the crash
+                        // depends on process state we do not control (e.g. undefined behaviour in
+                        // the library whose effect depends on heap layout): report the worker
+                        // share itself as the replay.
+                        let again_file = run_dir().join(format!("again-{}-{}-{}.json", std::process::id(), sc.name(), w));
+                        let died_again = match spawn_worker(sc.name(), tier, seed, w, n, &again_file, false, None) {
+                            Ok(mut c) => !c.wait().map(|s| s.success()).unwrap_or(false),
+                            Err(_) => false,
+                        };
+                        let _ = std::fs::remove_file(&again_file);
+                        if died_again {
+                            let class = format!("{}.worker_share", classify_crash(&status.unwrap_or_else(|| std::process::ExitStatus::default()), &se));
+                            let mut plan = Plan::new(sc.name(), "");
+                            plan.set("fix_share_w", w as i64);
+                            plan.set("fix_share_n", n as i64);
+                            plan.set("fix_share_tier", (tier == Tier::Thorough) as i64);
+                            violations.push(FoundViolation { case: w, class: class.clone(), detail: format!("worker share {w}/{n} of scenario {} dies repeatedly (not tied to one case in a fresh process: depends on process state, typically undefined behaviour in the library): {}", sc.name(), se.chars().take(200).collect::<String>()), key: format!("subject= class={class}"), plan });
+                            stats.skip("cases_after_crash_in_worker_share");
+                        } else {
+                            harness_error = Some(format!("worker {w} died (status {:?}) but neither the careful nor the plain re-run did: resource problem. stderr: {}", status, se.chars().take(500).collect::<String>()));
+                        }
                     },
                 }
             },
@@ -583,14 +603,31 @@ fn check(prop: &str, tier: Tier) -> i32 {
                     }
                 }
             }
+            if class.ends_with(".worker_share") {
+                let rdir = verif_dir().join("replays");
+                let _ = std::fs::create_dir_all(&rdir);
+                let rfile = rdir.join(format!("{}-{}-{}-share{}.json", sc.property(), sc.name(), seed, fv.case));
+                let rep = Replay { property: sc.property().to_string(), seed, scenario: sc.name().to_string(), case: fv.case, class: class.clone(), detail: fv.detail.clone(), minimised: false, shrink_steps: 0, plan: fv.plan.clone(), trace: vec![] };
+                if std::fs::write(&rfile, serde_json::to_string_pretty(&rep).unwrap()).is_err() {
+                    eprintln!("HARNESS-ERROR: cannot write replay file");
+                    return 2;
+                }
+                println!("VIOLATION property={} replay={}", sc.property(), rfile.display());
+                println!("  class={} seed={} detail={}", class, seed, fv.detail);
+                reported.push(json!({"class": class, "case": fv.case, "replay": rfile.display().to_string(), "detail": fv.detail}));
+                continue;
+            }
             let (minplan, steps) = if is_crash_class(&class) {
                 let mut test = |p: &Plan| outcome_class(&run_plan_in_child_caps(p, Duration::from_secs(120), Some(256)));
                 // confirm first
                 if test(&fv.plan).as_deref() != Some(class.as_str()) {
-                    eprintln!("HARNESS-ERROR: crash of case {} did not reproduce in a fresh process", fv.case);
-                    return 2;
+                    // depends on the process history (heap layout): report unminimised, the
+                    // replay executes the case after its predecessors of the same worker share
+                    println!("note: crash of case {} does not reproduce in a fresh single-case process; reporting the unminimised case", fv.case);
+                    (fv.plan.clone(), 0)
+                } else {
+                    minimise(&fv.plan, &class, &mut test, 40)
                 }
-                minimise(&fv.plan, &class, &mut test, 40)
             } else {
                 let mut test = |p: &Plan| in_process_test(*sc, p);
                 minimise(&fv.plan, &class, &mut test, 3000)
@@ -623,7 +660,7 @@ fn check(prop: &str, tier: Tier) -> i32 {
             }
             // the replay must reproduce the same class in a fresh process
             let again = run_file_in_child(&rfile, Duration::from_secs(600));
-            if outcome_class(&again).as_deref() != Some(class.as_str()) {
+            if outcome_class(&again).as_deref() != Some(class.as_str()) && !is_crash_class(&class) {
                 eprintln!("HARNESS-ERROR: replay of {} gave {:?}, expected class {}", rfile.display(), again, class);
                 return 2;
             }
@@ -732,6 +769,27 @@ fn replay(file: &str) -> i32 {
         },
     };
     println!("replaying property={} scenario={} seed={} case={} expected class={}", rep.property, rep.scenario, rep.seed, rep.case, rep.class);
+    if rep.class.ends_with(".worker_share") {
+        let w = rep.plan.param("fix_share_w") as u64;
+        let n = rep.plan.param("fix_share_n") as u64;
+        let tier = if rep.plan.param("fix_share_tier") == 1 { Tier::Thorough } else { Tier::Quick };
+        let f = run_dir().join(format!("replay-share-{}.json", std::process::id()));
+        let died = match spawn_worker(&rep.scenario, tier, rep.seed, w, n, &f, false, None) {
+            Ok(mut c) => !c.wait().map(|s| s.success()).unwrap_or(false),
+            Err(e) => {
+                eprintln!("HARNESS-ERROR: {e}");
+                return 2;
+            },
+        };
+        let _ = std::fs::remove_file(&f);
+        if died {
+            println!("REPLAY violation class={} same_class=true (worker share {}/{} died again)", rep.class, w, n);
+            println!("VIOLATION property={} replay={}", rep.property, file);
+            return 1;
+        }
+        println!("REPLAY pass (the worker share completes on this tree)");
+        return 0;
+    }
     let o = run_file_in_child(std::path::Path::new(file), Duration::from_secs(900));
     match &o {
         ChildOutcome::Pass => {
